@@ -252,6 +252,30 @@ var c03ParamDetails = reflect.TypeOf(model.TerminalParamDetails{})
 // gbkMembers: the members filled from utils.GBK2UTF8 output.
 var c03GbkMembers = map[string]bool{"LicensePlateNumber": true}
 
+type c03Field struct {
+	index int
+	gbk   bool
+}
+
+var c03FieldCache = map[reflect.Type][]c03Field{}
+
+// c03Fields: the members of a struct type that are dumped (reflect's Field(i) allocates: computed once per type)
+func c03Fields(t reflect.Type) []c03Field {
+	if fs, ok := c03FieldCache[t]; ok {
+		return fs
+	}
+	fs := []c03Field{}
+	for i := 0; i < t.NumField(); i++ {
+		f := t.Field(i)
+		if f.Type == c03BaseHandle || f.Type.Kind() == reflect.Func || !f.IsExported() {
+			continue
+		}
+		fs = append(fs, c03Field{index: i, gbk: c03GbkMembers[f.Name]})
+	}
+	c03FieldCache[t] = fs
+	return fs
+}
+
 type c03Dumper struct {
 	sb   strings.Builder
 	mask bool // print GBK-converted text as "?"
@@ -323,22 +347,15 @@ func (d *c03Dumper) dump(v reflect.Value) {
 			return
 		}
 		d.sb.WriteByte('(')
-		first := true
-		t := v.Type()
-		for i := 0; i < v.NumField(); i++ {
-			f := t.Field(i)
-			if f.Type == c03BaseHandle || f.Type.Kind() == reflect.Func || !f.IsExported() {
-				continue
-			}
-			if !first {
+		for k, fi := range c03Fields(v.Type()) {
+			if k > 0 {
 				d.sb.WriteByte(',')
 			}
-			first = false
-			if d.mask && c03GbkMembers[f.Name] {
+			if d.mask && fi.gbk {
 				d.sb.WriteByte('?')
 				continue
 			}
-			d.dump(v.Field(i))
+			d.dump(v.Field(fi.index))
 		}
 		d.sb.WriteByte(')')
 	default:
@@ -350,16 +367,14 @@ func (d *c03Dumper) dump(v reflect.Value) {
 func (d *c03Dumper) params(v reflect.Value) {
 	d.sb.WriteString("((")
 	first := true
-	t := v.Type()
 	var other reflect.Value
 	for i := 0; i < v.NumField(); i++ {
-		f := t.Field(i)
 		fv := v.Field(i)
-		if f.Type.Kind() == reflect.Map {
+		if fv.Kind() == reflect.Map {
 			other = fv
 			continue
 		}
-		if f.Type.Kind() != reflect.Struct || fv.NumField() != 3 {
+		if fv.Kind() != reflect.Struct || fv.NumField() != 3 {
 			continue
 		}
 		if fv.Field(0).Uint() == 0 {
@@ -456,6 +471,12 @@ func c03StringPanics(h C03Handler) (p bool) {
 // C03Parse: fresh receiver; String() is run only on the exact-capacity call (tail == nil).
 func C03Parse(t *C03Type, ver, dial int, body, tail []byte) string {
 	return C03ParseInto(t, t.New(dial), ver, WithTail(body, tail), tail == nil)
+}
+
+// C03ParseNoString: as C03Parse with exact capacity but without String() (the String() methods build their text
+// with `str +=` in a loop: quadratic in the list length, so the harness runs them on a sample of the long lists)
+func C03ParseNoString(t *C03Type, ver, dial int, body []byte) string {
+	return C03ParseInto(t, t.New(dial), ver, Exact(body), false)
 }
 
 type C03VerBody struct {
